@@ -18,7 +18,11 @@ Import ListNotations.
 From RecordUpdate Require Import RecordSet.
 Import RecordSetNotations.
 
-Inductive kind := Noop | Async.
+(** Noop: NoopCommand. Async: completes when the device answers a request (kernel
+    launch). Empty: a zero-byte memory copy that needs no flush - it is started
+    (IsRunning = true), creates no request, and the copy middleware's next Tick
+    completes it (completeEmptyCopies). *)
+Inductive kind := Noop | Async | Empty.
 Record cmd := mkCmd { c_id : N; c_kind : kind }.
 
 (** Operations of an application thread: Driver.Enqueue(q, c) and
@@ -102,7 +106,7 @@ Fixpoint mem_nat (t : nat) (l : list nat) : bool :=
   match l with [] => false | x :: r => Nat.eqb x t || mem_nat t r end.
 
 Definition kind_eqb (a b : kind) : bool :=
-  match a, b with Noop, Noop | Async, Async => true | _, _ => false end.
+  match a, b with Noop, Noop | Async, Async | Empty, Empty => true | _, _ => false end.
 
 Definition nonempty {A} (l : list A) : bool := match l with [] => false | _ :: _ => true end.
 
